@@ -116,9 +116,10 @@ impl<'a, I: MonItem> World<'a, I> {
         match self.regime {
             Regime::Library => None,
             Regime::Uniform => Some(self.prio_rng.next_u64() as u32),
-            Regime::Tiny => Some(self.prio_rng.below(3) as u32),
-            Regime::Increasing => Some(self.prio_counter),
-            Regime::Decreasing => Some(u32::MAX - self.prio_counter),
+            // many ties, including the two extreme values of the priority type
+            Regime::Tiny => Some([0u32, 1, 2, u32::MAX][self.prio_rng.below(4) as usize]),
+            Regime::Increasing => Some(self.prio_counter - 1),
+            Regime::Decreasing => Some(u32::MAX - (self.prio_counter - 1)),
             Regime::Constant => Some(7),
         }
     }
@@ -279,6 +280,18 @@ impl<'a, I: MonItem> World<'a, I> {
         let want = self.pool[i].model.remove(pos);
         let got = lib!(self.pool[i].treap.remove_at(pos));
         self.rep.inc("api_results_checked");
+        // the removed item is a sequence of one element: its own aggregate and size must say so (it may be inserted
+        // again as it is)
+        if got.agg() != I::fold(std::slice::from_ref(&want.1)) || got.size() != 1 || got.pend().is_some() && false {
+            self.violation(
+                "remove_at_item_not_single",
+                Json::obj()
+                    .set("what", "the item returned by remove_at does not carry the aggregate / size of a single element")
+                    .set("aggregate", format!("{:?}", got.agg()))
+                    .set("size", got.size())
+                    .set("want_aggregate", format!("{:?}", I::fold(std::slice::from_ref(&want.1)))),
+            );
+        }
         if got.id() != want.0 || got.elem() != want.1 {
             self.violation(
                 "remove_at",
@@ -288,6 +301,24 @@ impl<'a, I: MonItem> World<'a, I> {
                     .set("want", format!("{:?}", want)),
             );
         }
+    }
+
+    /// remove an element and insert the very item that came back somewhere else (possibly into another treap)
+    pub fn op_move(&mut self, i: usize, pos: usize, j: usize, pos2: usize) {
+        self.note(format!("move: remove_at pool[{}] pos {} -> insert_at pool[{}] pos {}", i, pos, j, pos2));
+        let want = self.pool[i].model.remove(pos);
+        let got = lib!(self.pool[i].treap.remove_at(pos));
+        self.rep.inc("api_results_checked");
+        self.rep.inc("reinserted_removed_items");
+        if got.id() != want.0 || got.elem() != want.1 {
+            self.violation(
+                "remove_at",
+                Json::obj().set("got", format!("({}, {:?})", got.id(), got.elem())).set("want", format!("{:?}", want)),
+            );
+        }
+        let pos2 = pos2.min(self.pool[j].model.len());
+        lib!(self.pool[j].treap.insert_at(pos2, got));
+        self.pool[j].model.insert(pos2, want);
     }
 
     pub fn op_first_last(&mut self, i: usize, first: bool) {
@@ -436,7 +467,7 @@ pub fn run_random_case<I: MonItem>(case_seed: u64, rep: &mut Report, verbose: bo
             let np = w.pool.len();
             let total = w.total_elems();
             // choose an op; weights adapt to the state
-            let choice = if np == 0 || (total < 4 && rng.chance(1, 2)) { 0 } else { rng.weighted(&[6, 1, 10, 10, 8, 12, 8, 4, 3, 3, 10, 12, 4, 3]) };
+            let choice = if np == 0 || (total < 4 && rng.chance(1, 2)) { 0 } else { rng.weighted(&[6, 1, 10, 10, 8, 12, 8, 4, 3, 3, 10, 12, 4, 3, 6]) };
             let i = if np > 0 { rng.usize_below(np) } else { 0 };
             let len = if np > 0 { w.pool[i].model.len() } else { 0 };
             kinds |= 1 << choice;
@@ -498,9 +529,17 @@ pub fn run_random_case<I: MonItem>(case_seed: u64, rep: &mut Report, verbose: bo
                         w.op_size_root(i)
                     }
                 }
-                _ => {
+                13 => {
                     if len > 0 {
                         w.op_rotate(i, rng.range_usize(0, len));
+                    }
+                }
+                _ => {
+                    if len > 0 {
+                        let j = rng.usize_below(np);
+                        let pos = rng.usize_below(len);
+                        let pos2 = rng.usize_below(w.pool[j].model.len() + 1);
+                        w.op_move(i, pos, j, pos2);
                     }
                 }
             }
